@@ -27,6 +27,7 @@ type Verifier struct {
 	curExec        *Exec
 	interfMemo     map[*ssa.Function]int
 	sharedMaps     map[string]bool
+	labelSiteTypes map[string]types.Type
 	effMemo        map[*ssa.Function]map[string]bool
 }
 
